@@ -1269,6 +1269,12 @@ func FoldBinaryOperator(loc logger.Loc, e *EBinary) Expr {
 			if math.IsNaN(right) || (math.Abs(left) == 1 && math.IsInf(right, 0)) {
 				return Expr{Loc: loc, Data: &ENumber{Value: math.NaN()}}
 			}
+			// Go's "math.Pow" goes through "math.Log", which is inaccurate for
+			// subnormal numbers on some platforms (e.g. "1e-310 ** 0.1" comes
+			// out 60% too big on amd64), so leave those for the JavaScript VM
+			if left != 0 && math.Abs(left) < 2.2250738585072014e-308 {
+				break
+			}
 			return Expr{Loc: loc, Data: &ENumber{Value: math.Pow(left, right)}}
 		}
 
